@@ -149,24 +149,28 @@ static bool parse_prefix(const std::string& s, std::vector<int>& bodies, std::ve
 int main(int argc, char** argv) {
     Args a = Args::parse(argc, argv); g_dir = scratch_dir(); Result total; bool T = a.thorough();
     auto done = [&](int rc) { a.finish(total); rm_rf(g_dir); return rc; };
-    { seeds::Opt o; o.sets = {seeds::PS(3, 1000000, 0, true)}; o.blocks = 3; o.per_block = 2; prepared_file = g_dir + "/prepared.cdns"; spit(prepared_file, seeds::make(o)); }
+    // the input file of the reading workload is produced in a forked child: until the first workload starts, this process has not executed any library
+    // code, so lazily initialised library state is still cold when the free-running pass below starts its threads
+    { prepared_file = g_dir + "/prepared.cdns"; fflush(stdout); fflush(stderr); pid_t p = fork(); if (p == 0) { seeds::Opt o; o.sets = {seeds::PS(3, 1000000, 0, true)}; o.blocks = 3; o.per_block = 2; spit(prepared_file, seeds::make(o)); _exit(0); } int st = 0; waitpid(p, &st, 0); if (!WIFEXITED(st) || WEXITSTATUS(st) != 0) { fprintf(stderr, "could not prepare the input file\n"); return done(2); } }
     // sequential reference digests (single thread, no scheduler); slot-dependent content, so compute per (body, slot)
-    std::map<std::pair<int, int>, std::string> refd;
-    for (int b = 0; b < NBODY; b++) for (int slot = 0; slot < 3; slot++) { std::string d1 = run_body(b, slot), d2 = run_body(b, slot); if (d1 != d2) { fprintf(stderr, "body %s is not deterministic\n", BN[b]); return done(2); } refd[{b, slot}] = d1; }
 
 #ifdef TSAN_PASS
     // ---- free-running pass under ThreadSanitizer: reports go to stderr / a log file which the parent inspects
     {
         std::string logp = g_dir + "/tsan"; int nviol = 0;
-        for (int nt : {2, 4, 8, 16}) for (int round = 0; round < (T ? 12 : 4); round++) {
+        // rounds 0..R-1: bodies rotated over the threads; rounds 100+b: every thread runs body b (first use of the same lazily built state by all threads at once)
+        std::vector<std::pair<int, int>> plan; for (int nt : {2, 4, 8, 16}) for (int round = 0; round < (T ? 12 : 4); round++) plan.push_back({nt, round});
+        for (int b = 0; b < NBODY; b++) { plan.push_back({4, 100 + b}); if (T) plan.push_back({16, 100 + b}); }
+        for (auto& pl : plan) { int nt = pl.first, round = pl.second;
             fflush(stdout); fflush(stderr); pid_t p = fork();
             if (p == 0) {
                 int fd = open((logp + ".log").c_str(), O_WRONLY | O_CREAT | O_TRUNC, 0600); dup2(fd, 2);
                 std::vector<std::string> dg(nt), want(nt); std::vector<int> bs(nt);
-                for (int t = 0; t < nt; t++) { bs[t] = (t + round) % NBODY; want[t] = run_body(bs[t], t); }     // sequential reference, same slots
+                for (int t = 0; t < nt; t++) bs[t] = round >= 100 ? round - 100 : (t + round) % NBODY;
                 S.free_running = true; S.yield_seed = a.seed * 1000003ULL + nt * 131 + round; std::vector<std::thread> th;
                 for (int t = 0; t < nt; t++) th.emplace_back([&, t]() { TID = t; try { dg[t] = run_body(bs[t], t); } catch (std::exception& e) { dg[t] = std::string("EXC:") + e.what(); } });
                 for (auto& t : th) t.join();
+                S.free_running = false; for (int t = 0; t < nt; t++) want[t] = run_body(bs[t], t);     // sequential reference, same slots - AFTER the threads: the concurrent run is the first use of the library in this process
                 for (int t = 0; t < nt; t++) if (dg[t] != want[t]) { fprintf(stderr, "DIGEST-MISMATCH thread %d body %s: %s vs sequential %s\n", t, BN[bs[t]], dg[t].c_str(), want[t].c_str()); fflush(stderr); _exit(3); }
                 _exit(0);
             }
@@ -180,6 +184,9 @@ int main(int argc, char** argv) {
         return done(0);
     }
 #endif
+
+    std::map<std::pair<int, int>, std::string> refd;
+    for (int b = 0; b < NBODY; b++) for (int slot = 0; slot < 3; slot++) { std::string d1 = run_body(b, slot), d2 = run_body(b, slot); if (d1 != d2) { fprintf(stderr, "body %s is not deterministic\n", BN[b]); return done(2); } refd[{b, slot}] = d1; }
 
     auto check_run = [&](const std::vector<int>& bodies, const std::vector<int>& prefix, int level, const RunOut& x, Result& R, int eintr = -1) {
         std::string rep = prefix_str(bodies, prefix, level) + (eintr >= 0 ? ";eintr=" + std::to_string(eintr) : "");
